@@ -699,6 +699,26 @@ class NodeList(FastTypedDict):
 
     # --------------------------------------------------------------------------
     #
+    def _get_node(self, node_index: int) -> Node:
+        '''
+        return the node with the given `index`: that is usually its position in
+        the node list, but the list may have gaps (nodes which were allocated
+        but are not offered, such as agent nodes or inaccessible nodes)
+        '''
+
+        if 0 <= node_index < len(self.nodes) and \
+                self.nodes[node_index].index == node_index:
+            return self.nodes[node_index]
+
+        for node in self.nodes:
+            if node.index == node_index:
+                return node
+
+        raise ValueError('no node with index %s' % node_index)
+
+
+    # --------------------------------------------------------------------------
+    #
     def _assert_rr(self, rr: RankRequirements, n_slots:int) -> None:
 
         if not self.__verified__:
@@ -765,7 +785,7 @@ class NodeList(FastTypedDict):
         if len(slots) != n_slots:
             # free whatever we got
             for slot in slots:
-                node = self.nodes[slot.node_index]
+                node = self._get_node(slot.node_index)
                 node.deallocate_slot(slot)
             self.__last_failed_rr__ = rr
             self.__last_failed_n__  = n_slots
@@ -782,7 +802,7 @@ class NodeList(FastTypedDict):
 
         for slot in slots:
 
-            node = self.nodes[slot.node_index]
+            node = self._get_node(slot.node_index)
             node.deallocate_slot(slot)
 
         if self.__last_failed_rr__:
